@@ -144,6 +144,8 @@ var (
 	goEnv   []string
 )
 
+var coverOut string
+
 var (
 	childMu  sync.Mutex
 	children = map[int]bool{}
@@ -200,6 +202,7 @@ func main() {
 	workersF := fs.Int("workers", 0, "worker processes")
 	fs.BoolVar(&verbose, "v", false, "verbose")
 	noEvidence := fs.Bool("no-evidence", false, "do not write the evidence file")
+	fs.StringVar(&coverOut, "cover", "", "measure statement coverage of goalign by the plain batch and write the merged profile to this file (no race batch, no cold runs, no evidence)")
 	selftest := fs.Int("selftest", 0, "determinism self-test: execute the first N runs in 6 processes (GOMAXPROCS 1, 4, 16, twice each) and compare everything they produce")
 	fs.Parse(os.Args[2:])
 	if *tier == "" {
@@ -266,6 +269,10 @@ func main() {
 		b.build(!rp.Race, rp.Race)
 		os.Exit(doReplay(b, id, *replay, rp))
 	}
+	if coverOut != "" {
+		needRace = false
+		*noEvidence = true
+	}
 	b.build(true, needRace)
 	logf("vcheck %s: build done in %.1fs", id, time.Since(t0).Seconds())
 
@@ -285,14 +292,26 @@ func main() {
 		cleanup()
 		os.Exit(code)
 	}
+	if coverOut != "" {
+		raceRuns = 0
+	}
 	total := sup.batch(false, runs, false)
+	if coverOut != "" {
+		mergeCover(coverOut)
+	}
 	if raceRuns > 0 {
 		r2 := sup.batch(true, raceRuns, false)
 		total = mergeResults(total, r2, "race_")
 	}
+	if coverOut != "" {
+		raceRuns = 0
+	}
 	cold := cfg.coldQuick
 	if *tier == "thorough" {
 		cold = cfg.coldThorough
+	}
+	if coverOut != "" {
+		cold = 0
 	}
 	if *runsF >= 0 && *runsF < cold {
 		cold = *runsF
@@ -375,7 +394,11 @@ func (b *builder) build(plain, race bool) {
 		wg.Add(1)
 		go func() {
 			defer wg.Done()
-			out, err := run(sim, goEnv, "go1.26.8", "test", "-c", "-tags", "verif", "-overlay", b.overlay, "-vet=off", "-o", b.bin, ".")
+			args := []string{"test", "-c", "-tags", "verif", "-overlay", b.overlay, "-vet=off", "-o", b.bin}
+			if coverOut != "" {
+				args = append(args, "-cover", "-coverpkg", "github.com/evolbioinfo/goalign/align,github.com/evolbioinfo/goalign/io/...,github.com/evolbioinfo/goalign/distance/...,github.com/evolbioinfo/goalign/cmd")
+			}
+			out, err := run(sim, goEnv, "go1.26.8", append(args, ".")...)
 			if err != nil {
 				errs[0] = out
 			}
@@ -476,8 +499,11 @@ func (s *supervisor) spawn(job Job, timeout time.Duration) workerRun {
 		bin = s.b.raceBin
 	}
 	args := []string{"-test.run", "^TestWorker$", "-test.timeout", "0"}
+	if coverOut != "" && !job.Race {
+		args = append(args, "-test.coverprofile", filepath.Join(dir, "cover.out"))
+	}
 	var cmd *exec.Cmd
-	if s.cfg.vlimitKB > 0 && !job.Race {
+	if s.cfg.vlimitKB > 0 && !job.Race && coverOut == "" {
 		sh := fmt.Sprintf("ulimit -v %d; exec %s %s", s.cfg.vlimitKB, bin, strings.Join(args, " "))
 		cmd = exec.Command("/bin/sh", "-c", sh)
 	} else {
@@ -736,6 +762,45 @@ func tail(s string, n int) string {
 
 // batch runs `runs` simulated runs over nw workers, restarting a worker after
 // the run that killed it.
+// mergeCover unites the coverage profiles the workers of the plain batch left (mode set: a block counts once).
+func mergeCover(out string) {
+	files, _ := filepath.Glob(filepath.Join(work, "w*", "cover.out"))
+	blocks := map[string]int{}
+	for _, f := range files {
+		data, err := os.ReadFile(f)
+		if err != nil {
+			continue
+		}
+		for _, line := range strings.Split(string(data), "\n") {
+			if line == "" || strings.HasPrefix(line, "mode:") {
+				continue
+			}
+			k := strings.LastIndexByte(line, ' ')
+			if k < 0 {
+				continue
+			}
+			n, _ := strconv.Atoi(line[k+1:])
+			if n > 0 {
+				blocks[line[:k]] = 1
+			} else if _, ok := blocks[line[:k]]; !ok {
+				blocks[line[:k]] = 0
+			}
+		}
+	}
+	keys := make([]string, 0, len(blocks))
+	for k := range blocks {
+		keys = append(keys, k)
+	}
+	sort.Strings(keys)
+	var sb strings.Builder
+	sb.WriteString("mode: set\n")
+	for _, k := range keys {
+		fmt.Fprintf(&sb, "%s %d\n", k, blocks[k])
+	}
+	os.WriteFile(out, []byte(sb.String()), 0644)
+	logf("vcheck: merged %d coverage profiles into %s", len(files), out)
+}
+
 // coldBase: cold runs take their indices (and so their run seeds) from a range of their own.
 const coldBase = 1 << 40
 
